@@ -1,7 +1,10 @@
 #!/bin/sh
-# usage: tools/trymut.sh <patch.diff> <Cxx> [more Cxx...]   — apply a seeded change to /repo, run the checks, undo it
-P=$1; shift
-git -C /repo apply "$(realpath "$P")" || { echo "patch does not apply"; exit 2; }
+# usage: tools/trymut.sh <patch.diff> <Cxx> [more Cxx...]   — apply a seeded change to /repo, run the checks, undo it.
+# Evidence files are saved and restored: evidence committed to git must come from the unchanged tree.
+P=$(realpath "$1"); shift
+rm -rf /verif/.cache/evidence.save && cp -r /verif/evidence /verif/.cache/evidence.save
+git -C /repo apply "$P" || { echo "patch does not apply"; exit 2; }
 for c in "$@"; do ./check $c quick 2>&1 | grep -v "^note:" | cut -c1-400; done
 git -C /repo checkout -- . ; git -C /repo status --short | head -3
+rm -rf /verif/evidence && mv /verif/.cache/evidence.save /verif/evidence
 /verif/bin/extract >/dev/null 2>&1
